@@ -8,6 +8,7 @@ PROPS = {
     'C03': 'rsym.props.c03',
     'C14': 'rsym.props.c14',
     'C15': 'rsym.props.c15',
+    'C18': 'rsym.props.c18',
     'C25': 'rsym.props.c25',
 }
 
